@@ -436,3 +436,30 @@ propvalue_harness!(c09_propvalue_read_lpstr_len0, 30, 0);
 propvalue_harness!(c09_propvalue_read_lpstr_len1, 30, 1);
 propvalue_harness!(c09_propvalue_read_lpstr_len2, 30, 2);
 propvalue_harness!(c09_propvalue_read_lpstr_huge, 30, 0xffff_ffff);
+
+/// C18 (I/O half): a FILETIME value is written as the 8-byte little-endian
+/// tick count and read back identically, for every u64.
+#[kani::proof]
+#[kani::unwind(10)]
+#[kani::stub(std::fmt::format, crate::util::stub_format)]
+fn c18_timestamp_io() {
+    let t: u64 = kani::any();
+    let ts = match is_ok_forget(Timestamp::read_from(&mut ArrReader::new(t.to_le_bytes(), 8))) {
+        Some(ts) => ts,
+        None => unreachable!(),
+    };
+    let mut sink = FixedSink::<8>::new();
+    assert!(is_ok_forget(ts.write_to(&mut sink)).is_some());
+    assert!(sink.len == 8, "C18: a timestamp must be written as 8 bytes");
+    let mut i = 0;
+    while i < 8 {
+        assert!(sink.buf[i] == ((t >> (8 * i)) & 0xff) as u8, "C18: timestamp bytes are not the little-endian tick count");
+        i += 1;
+    }
+    let back = is_ok_forget(Timestamp::read_from(&mut ArrReader::new(sink.buf, 8)));
+    assert!(back == Some(ts), "C18: timestamp read back differs");
+    // short input is an error, not a panic
+    let short = is_ok_forget(Timestamp::read_from(&mut ArrReader::new(sink.buf, 7)));
+    assert!(short.is_none(), "C18/C09: a 7-byte timestamp must be refused");
+    kani::cover!(true);
+}
